@@ -1,12 +1,11 @@
 (* Properties_C01.v — C01: every embed call returns N x target_dimension rows or a documented error;
    it never reads or writes outside its buffers and never hangs.  Statements only; proofs are in
    Shapes_Proof_*.v.  Model: Shapes_Model.v; predicates: Shapes_Spec.v. *)
-From Coq Require Import ZArith List Bool QArith.
-From Coq Require String.
+From Coq Require Import ZArith List Bool QArith Lia.
 From TK Require Import Shapes_Model Shapes_Spec Shapes_Proof_Base Shapes_Proof_Routines
                        Shapes_Proof_Term Shapes_Proof_Main.
 From TK Require Import Validate_Model Mat_EigSelect Shapes_Src ShapesSrc Validate_C01 EigSelect_C01
-                       Shapes_Proof_Tie.
+                       Shapes_SrcTie Shapes_Proof_Tie.
 Import ListNotations.
 Open Scope Z_scope.
 
@@ -279,11 +278,18 @@ Example c01_eig_tied_nonvacuous : 0 <= 5 /\ 0 <= 4 /\ 0 <= 1 /\
 Proof. repeat split; try discriminate. Qed.
 
 Theorem c01_skip_tied :
-  skip_of skip_table "LargestEigenvalues"%string = Some 0%nat /\
-  skip_of skip_table "SquaredLargestEigenvalues"%string = Some 0%nat /\
-  skip_of skip_table "SmallestEigenvalues"%string = Some 1%nat.
+  skip_of skip_table str_largest = Some 0%nat /\
+  skip_of skip_table str_squared_largest = Some 0%nat /\
+  skip_of skip_table str_smallest = Some 1%nat.
 Proof. exact skip_tied. Qed.
 Print Assumptions c01_skip_tied.
+
+(* the detector the search phase runs is silent on every request while the tables are those of HEAD *)
+Theorem c01_src_never_differs : forall c keff,
+  0 <= c_N c -> 0 <= c_D c -> 0 <= c_d c -> 0 <= keff -> 0 <= c_K c -> 0 <= c_nupd c -> 0 <= c_L c ->
+  src_differs c keff = false.
+Proof. exact src_never_differs. Qed.
+Print Assumptions c01_src_never_differs.
 
 (* ---- strand 2, the routines added in wave 2 (all sizes) ---------------------------------------- *)
 Theorem c01_diffusion_matrix : forall N, diffusion_matrix N = Ok.
@@ -374,7 +380,7 @@ Proof. exact bi_chain_scales_nonneg. Qed.
 Print Assumptions c01_bi_chain_scales_nonneg.
 
 Example c01_bi_chain_nonvacuous :
-  bi_chain 10 5 5 (fun m => if 2 <? m then Some (m - 2) else None) = Some [0; 2; 4; 100].
+  bi_chain 10 5 5 (fun m => if 2 <? m then Some (m - 2) else None) = Some [0; 2; 100].
 Proof. vm_compute. reflexivity. Qed.
 
 (* ---- strand 3, the loops added in wave 2 ------------------------------------------------------- *)
